@@ -13,20 +13,35 @@ from fractions import Fraction
 from .common import Ctx, Driver, tok
 
 MANIFEST = dict(
-    text=("Lean theorems over the code-mirror of nonwhitespace_re.findall / _replace_cdata_list_attribute_values / "
-          "HTMLAttributeDict+XMLAttributeDict.__setitem__ / Tag.__init__ / handle_starttag: split_tokens + every_string_decomposes "
-          "(the tokens are the maximal whitespace-free runs, for every string, over the generated \\s class), split_join_stable, "
-          "multi_valued_iff_table + kernel-decided presence of the documented entries in the generated table, replace_refines_spec, "
-          "custom_map_exact, others_verbatim, none_disables, html_coercion / xml_coercion (total, incl. 0, 0.0, negatives, digit-limit "
-          "ValueError), containers_hold_no_numbers (invariant over all assignment sequences), dup_policy_replace/ignore/callable, "
-          "parsed_start_tag (end to end). Tie: differential runs of the real bs4 against the compiled model and a direct Python oracle "
-          "over whitespace patterns from the full isspace set, the element x attribute grid around the table (case variants, custom "
-          "maps, None), the value-type grid through both containers / Tag.__setitem__ / new_tag / builder-less tags / copies, and "
-          "generated start tags with 2-4 repeated attributes under every on_duplicate_attribute setting and builder option."),
+    text=("Lean theorems (69, all proved, axioms audited) over a code-mirror of nonwhitespace_re.findall, TreeBuilder option handling and "
+          "_replace_cdata_list_attribute_values, HTMLAttributeDict/XMLAttributeDict.__setitem__, the attribute part of Tag.__init__, "
+          "new_tag, copy_self, handle_starttag's duplicate handling, Tag.get/get_attribute_list/has_attr/__delitem__, and the attribute "
+          "part of _format_tag with Formatter.attributes and quoted_attribute_value. Splitting: split_tokens + every_string_decomposes "
+          "(tokens = maximal whitespace-free runs, every string, generated \\s class), split_is_regex_findall (scanner = the regex "
+          "engine's reading), written_back_and_reread (join/split for every list), split_join_stable. Table: multi_valued_iff_table, "
+          "default_table_every_entry_honoured + multi_valued_only_through_an_entry (the whole generated table, any spelling of the "
+          "element name; str.lower from a generated per-code-point table, = ASCII lowering on ASCII), prefixed_attributes_never_split, "
+          "base_table_splits_nothing (XML-flavoured builders), replace_refines_spec(_any_class), custom_map_exact, others_verbatim, "
+          "none_disables, builder_options_meaning. Containers: html_coercion / xml_coercion (total over the value ADT incl. 0, 0.0, "
+          "negatives, digit-limit ValueError), containers_hold_no_numbers (all assignment sequences). Duplicates: dup_policy_replace/"
+          "ignore/callable over all attribute lists, parsed_start_tag(_ignore/_accumulate/_any_policy/_none) end to end for every "
+          "dictionary/list class, policy_irrelevant_without_repeats, bad_policy_string_fails_iff_repeat. Histories: "
+          "mutate_leaves_others_unchanged, del_leaves_others_unchanged, creation_leaves_earlier_tags_unchanged, "
+          "later_parse_independent_of_history, copy_keeps_container. Reading/output: get_attribute_list_spec/_parsed, del_spec, "
+          "formatter_attributes_spec (permutation, key order, empty->None only under empty_attributes_are_booleans), "
+          "registry_empty_attribute_flags (whole generated registry), format_attribute_spec, quoting_delimits, attribute_string_shape. "
+          "Tie: differential runs of the real bs4 against the compiled model AND a direct Python oracle: exhaustive single separators, "
+          "generated whitespace patterns from the full isspace set, the element x attribute grid around the table (case variants incl. "
+          "non-ASCII, custom maps, None, XML-flavoured builder), the value-type grid through both containers / Tag.__setitem__ / new_tag "
+          "(nsprefix, NamespacedAttribute keys) / builder-less tags / copies, generated and untidy start tags with repeated attributes "
+          "under every on_duplicate_attribute setting, histories with in-place list changes under shared and fresh builders (object "
+          "identity, snapshots, search), every formatter's attribute output, and the accessors."),
     design="7/C17",
-    note=("HTMLAttributeDict is modelled in its documented form (identity test for False/None); the unrepaired membership test "
-          "`value in (False, None)` (element.py:280) drops 0/0.0 and is re-found as a violation until fixes/C17-html-attr-zero.diff is applied. "
-          "str(float) is taken from the runtime (carried in the value), str.lower() from a generated per-code-point table (no final-sigma rule)."),
+    note=("str(float) is taken from the runtime (carried in the value); entity substitution in attribute values is a parameter of the "
+          "output model (identity in the correspondence: formatter=None-like formatters, and named formatters on values that need no "
+          "substitution); str.lower() has no final-sigma rule in the model (U+03A3 not generated); which key object a dictionary retains "
+          "is not modelled (NamespacedAttribute keys in attrs arguments carry string values only); lxml is not installed, so the "
+          "XML-flavoured builder of the streams is html.parser's tokenizer with is_xml=True and the base (empty) table. "),
     technique="Lean 4 proofs over a code-mirror + differential correspondence through a line protocol + direct property oracle",
 )
 
@@ -55,6 +70,15 @@ def _classes():
     return {"plain": AttributeDict, "html": HTMLAttributeDict, "xml": XMLAttributeDict}, {1: AttributeValueList, 2: MyList}
 
 
+def _mystr():
+    global MyStr
+    try:
+        return MyStr
+    except NameError:
+        MyStr = type("MyStr", (str,), {})
+        return MyStr
+
+
 def big_dec(n: int) -> str:
     """decimal numeral of an int of any size (str() of the runtime has a digit limit)"""
     if n < 0:
@@ -73,6 +97,8 @@ def mk(desc):
     t = desc[0]
     if t == "s":
         return desc[1]
+    if t == "S":
+        return _mystr()(desc[1])       # a str subclass: treated as a string everywhere
     if t == "b":
         return bool(desc[1])
     if t == "n":
@@ -110,7 +136,7 @@ def enc_val(v) -> str:
         return "s:" + tok(v)
     if isinstance(v, list):
         cls = 0 if type(v) is list else (1 if type(v) is lc[1] else 2 if type(v) is lc[2] else 9)
-        return f"l:{cls}:" + "/".join(tok(x) for x in v)
+        return f"l:{cls}:" + "/".join(tok(x) if isinstance(x, str) else "?" + type(x).__name__ for x in v)
     for i, (_, o) in enumerate(OTHERS):
         if v is o or (type(v) is type(o) and v == o):
             eqf = 0
@@ -283,17 +309,20 @@ def cb_upper(attrs, key, value):
     attrs[key] = value + "!"
 
 
-ONDUP = {"absent": None, "replace": "replace", "None": None, "ignore": "ignore", "accumulate": accumulate,
+ONDUP = {"absent": None, "replace": "replace", "None": None, "ignore": "ignore", "Replace": "Replace", "keep": "keep",
+         "accumulate": accumulate,
          "noop": cb_noop, "drop": cb_drop, "upper": cb_upper}
-ONDUP_MODEL = {"absent": "replace", "replace": "replace", "None": "replace", "ignore": "ignore",
-               "accumulate": "accumulate", "noop": "noop", "drop": "drop", "upper": "upper"}
+ONDUP_MODEL = {"absent": "absent", "replace": "replace", "None": "None", "ignore": "ignore", "Replace": "Replace",
+               "keep": "keep", "accumulate": "cb:accumulate", "noop": "cb:noop", "drop": "cb:drop", "upper": "cb:upper"}
 
 
 def builder_kwargs(cfg):
     dc, lc = _classes()
     kw = {}
     if cfg["mva"] != "default":
-        kw["multi_valued_attributes"] = None if cfg["mva"] is None else {k: set(v) for k, v in cfg["mva"]}
+        # the attribute collections in several legal forms (set, frozenset, list, tuple): only membership is needed
+        forms = (set, frozenset, list, tuple)
+        kw["multi_valued_attributes"] = None if cfg["mva"] is None else {k: forms[(len(k) + len(v)) % 4](v) for k, v in cfg["mva"]}
     if cfg.get("dcls", "absent") != "absent":
         kw["attribute_dict_class"] = dc[cfg["dcls"]]
     if cfg.get("lcls", 0) != 0:
@@ -340,11 +369,8 @@ def make_soup(markup, cfg, shared=None):
 
 
 def cfg_model(cfg):
-    d = cfg.get("dcls", "absent")
-    m = enc_map(cfg["mva"])
-    if cfg.get("xml") and cfg["mva"] == "default":
-        m = enc_map([[k, sorted(v)] for k, v in sorted(live_table(cfg).items())])     # the base default (empty)
-    return m, ("plain" if d == "absent" else d), str(cfg.get("lcls", 0) or 1) + ("x" if cfg.get("xml") else "")
+    """the builder options as given (the model's mkBuilder resolves the defaults)"""
+    return (enc_map(cfg["mva"]), cfg.get("dcls", "absent"), str(cfg.get("lcls", 0) or 0) + ("x" if cfg.get("xml") else ""))
 
 
 def live_table(cfg):
@@ -452,6 +478,8 @@ def oracle(case) -> str:
                     continue
                 if pol in ("absent", "replace", "None"):
                     d[k] = v            # the last one survives, at the position of the first
+                elif isinstance(ONDUP[pol], str):
+                    return "raised TypeError"       # a string that is no policy cannot decide anything
                 else:
                     ONDUP[pol](d, k, v)
             else:
@@ -685,7 +713,7 @@ LOOKALIKES = [0x200B, 0x200C, 0x200D, 0x2060, 0xFEFF, 0x180E, 0x00AD, 0x034F, 0x
 TOKCH = "abcxyzAZ09-_.:+"
 
 VALUE_GRID = (
-    [("s", s) for s in ["", "x", "a b", " a  b ", "0", "False", "k"]]
+    [("s", s) for s in ["", "x", "a b", " a  b ", "0", "False", "k"]] + [("S", " p  q "), ("S", "")]
     + [("b", True), ("b", False), ("n",)]
     + [("i", d) for d in ["0", "1", "-1", "7", "-12", "255", "E30", "-E30", "E4299", "E4300", "-E4300", "-E4299"]]
     + [("f", d) for d in ["0.0", "-0.0", "1.5", "-2.25", "1e300", "1e-07", "inf", "-inf", "nan", "3.0"]]
@@ -757,6 +785,7 @@ CUSTOM_MAPS = [
     [("*", []), ("a", [])],
     [("a", ["class"]), ("*", ["rel"])],
     [("", ["x"]), ("div", [""])],
+    [("straße", ["class"]), ("é", ["rel"]), ("ǆ", ["id"])],     # non-ASCII keys: str.lower, not casefold / ASCII lowering
 ]
 
 
@@ -764,7 +793,7 @@ def gen_cfg(r, allow_ondup=True):
     mva = r.choice(["default", "default", "default", None] + CUSTOM_MAPS)
     cfg = {"mva": mva, "dcls": r.choice(["absent", "absent", "plain", "html", "xml"]), "lcls": r.choice([0, 0, 1, 2])}
     if allow_ondup:
-        cfg["ondup"] = r.choice(["absent", "replace", "None", "ignore", "accumulate", "noop", "drop", "upper"])
+        cfg["ondup"] = r.choice(["absent", "replace", "None", "ignore", "accumulate", "noop", "drop", "upper", "Replace", "keep"])
     if r.random() < 0.15:
         cfg["xml"] = True      # XML-flavoured builder (is_xml, the empty base table unless a map is given)
     return cfg
@@ -979,6 +1008,19 @@ def simulate_history(case):
             else:
                 tags[i]["attrs"].pop(key, None)          # deleting a missing attribute is not an error
                 msteps.append(f"D!{i}!{tok(key)}")
+        elif st[0] == "ctor":
+            _, i, isx = st
+            if i >= len(tags):
+                ok = False
+            else:
+                # Tag(name=…, attrs=other.attrs, is_xml=…): a builder-less tag, HTML/XML container by is_xml, the values
+                # assigned through it, lists in new lists
+                ccls = "xml" if isx else "html"
+                d = {}
+                for k, v in tags[i]["attrs"].items():
+                    oracle_store(ccls, d, k, _copy_val(v))
+                tags.append({"name": tags[i]["name"], "cls": ccls, "lcls": 1, "x": 1 if isx else 0, "attrs": d})
+                msteps.append(f"T!{i}!{1 if isx else 0}")
         valid.append(ok)
         states.append([_otag_canon(t) for t in tags])
     return valid, states, msteps, tags
@@ -1035,6 +1077,10 @@ def exec_history(case):
             owner.append(None)
         elif st[0] == "copy":
             tags.append(copy.copy(tags[st[1]]))
+            owner.append(None)
+        elif st[0] == "ctor":
+            from bs4.element import Tag
+            tags.append(Tag(name=tags[st[1]].name, attrs=tags[st[1]].attrs, is_xml=bool(st[2])))
             owner.append(None)
         elif st[0] == "mut":
             _, i, key, op, arg = st
@@ -1177,7 +1223,7 @@ def gen_history_case(r):
             tagkeys.append([key])
         elif x < 0.9:
             i = r.randrange(len(tagkeys))
-            steps.append(["copy", i])
+            steps.append(["copy", i] if r.random() < 0.6 else ["ctor", i, r.random() < 0.3])
             tagkeys.append(list(tagkeys[i]))
         elif x < 0.95:
             i = r.randrange(len(tagkeys))
@@ -1424,17 +1470,7 @@ def zero_defect_class(case, observed, expected):
 
 
 def known_finding_class(case, observed, expected):
-    """Classifier for recorded findings (computed from the case itself).
-    C17-copy-first-pass-huge-int: copy.copy of a tag whose *plain* AttributeDict holds an int beyond the interpreter's
-    str() digit limit raises ValueError: copy_self first builds a builder-less Tag, whose HTML/XML container tries to
-    turn the int into a string, before the attributes are replaced by the original's."""
-    if case.get("kind") == "tag" and case.get("via") == "copy" and case.get("acls") == "plain" and observed == "valueError":
-        lim = sys.get_int_max_str_digits()
-        for _, vd in case.get("attrs") or []:
-            if vd[0] == "i":
-                v = mk(vd)
-                if lim and len(big_dec(abs(v))) > lim:
-                    return "C17-copy-first-pass-huge-int"
+    """Classifier for recorded findings (computed from the case itself). None are recorded for C17 at present."""
     return None
 
 
@@ -1462,7 +1498,8 @@ def check_cases(ctx: Ctx, stream: str, cases: list):
         try:
             o, e = execute(c)
         except Exception as ex:      # an exception the property does not provide for is an observation, not a harness error
-            o, e = f"raised {type(ex).__name__}: {str(ex)[:80]}", []
+            o, e = f"raised {type(ex).__name__}", []
+            c["_exc"] = str(ex)[:120]
             if c["kind"] == "parse" and _spy_log:
                 c["_seen"] = _spy_log[0]
         obs.append(o)
@@ -1471,6 +1508,7 @@ def check_cases(ctx: Ctx, stream: str, cases: list):
     kept = []
     for c, o, e in zip(cases, obs, exts):
         c.pop("_human", None)
+        c.pop("_exc", None)
         if c.pop("_skip", False):
             ctx.count(f"{stream}:skipped-tokenizer-read-other-markup")
             continue
@@ -1537,15 +1575,27 @@ def run(ctx: Ctx):
         ctx.count("split:sep-is-ws" if c["s"][1].isspace() else "split:sep-not-ws")
     check_cases(ctx, "split-exhaustive", cases)
     r = ctx.rng("split")
-    cases = [{"kind": "split", "s": gen_ws_string(r)} for _ in range(ctx.n(20000, 100000))]
+    cases = [{"kind": "split", "s": gen_ws_string(r)} for _ in range(ctx.n(10000, 100000))]
     cases += [{"kind": "split", "s": s} for s in ["", " ", "\t\n", "a", " a", "a ", "a  b", " ", "a b", "a​b", "\x1c\x1d\x1e\x1f", "a\x85b"]]
     for c in cases:
         ctx.count(f"split:tokens={min(len(c['s'].split()), 4)}")
     check_cases(ctx, "split-generated", cases)
+    # the regex-engine reading of the model (findallNonWs, proved equal to splitWs) against the real findall
+    reps = Driver().ask(["c17 findall " + tok(c["s"]) for c in cases])
+    from bs4.element import nonwhitespace_re
+    for c, rep in zip(cases, reps):
+        got = nonwhitespace_re.findall(c["s"])
+        want = "/".join(tok(t) for t in got) if got else "-"
+        ctx.case(None)
+        if rep != want:
+            ctx.corr_disagreements += 1
+            ctx.violation("model (findallNonWs) and implementation disagree", case=c, expected=oracle(c), observed=want, model=rep,
+                          stream="findall-correspondence", no_failing_input=(want == oracle(c)))
 
     # ---- 2. which attributes are multi-valued: the grid in and around the table --------------------------------------
     cases = []
-    tag_pool = sorted({v for tg in tags for v in case_variants(tg)} | {"p", "div", "DIV", "tr", "span", "", "*", "tD ", " td", "tıd"})
+    tag_pool = sorted({v for tg in tags for v in case_variants(tg)} | {"p", "div", "DIV", "tr", "span", "", "*", "tD ", " td", "tıd",
+                                                                        "STRASSE", "strasse", "Straße", "STRAẞE", "É", "é", "Ǆ", "ǅ"})
     attr_pool = sorted(set(attrs) | {a.upper() for a in attrs} | {"id", "href", "style", "", "*", "class ", "Class", "acceptcharset"})
     for mva in ["default", None] + CUSTOM_MAPS:
         cfg = {"mva": mva}
@@ -1585,7 +1635,7 @@ def run(ctx: Ctx):
                                                                      [["p", "z"], ["s", "2"]], [list(kd), list(vd)]]})
     ctx.exhaustive_parts.append(f"dict: every key form x every grid value x 3 container classes, on an empty and on a populated dictionary ({len(cases)} cases)")
     r = ctx.rng("dict")
-    for _ in range(ctx.n(8000, 40000)):
+    for _ in range(ctx.n(5000, 40000)):
         cases.append({"kind": "dict", "cls": r.choice(["html", "xml", "plain"]),
                       "sets": [[list(r.choice(KEYS)), pick_value(r)] for _ in range(r.randint(2, 5))]})
     for c in cases:
@@ -1633,7 +1683,7 @@ def run(ctx: Ctx):
                               "acls": acls, "sets": [[["p", "class"], list(vd)]]})
     ctx.exhaustive_parts.append(f"tag: every grid value through builder-less Tag (html/xml), copy, new_tag under 4 dict classes x default/None ({len(cases)} cases)")
     r = ctx.rng("tag")
-    cases += [gen_tag_case(r) for _ in range(ctx.n(12000, 60000))]
+    cases += [gen_tag_case(r) for _ in range(ctx.n(8000, 60000))]
     for c in cases:
         ctx.count("tag:" + ("builder" if c["cfg"] is not None else c.get("via", "builderless")))
     check_cases(ctx, "tag-grid", cases)
@@ -1658,7 +1708,7 @@ def run(ctx: Ctx):
                     cases.append({"kind": "parse", "cfg": cfg, "name": "a", "attrs": al, "markup": markup_for("a", al)})
     ctx.exhaustive_parts.append(f"parse: every live table entry x every whitespace code point x default/None; 2-4 repeats x {len(ONDUP)} duplicate policies x 3 dict classes")
     r = ctx.rng("parse")
-    cases += [gen_parse_case(r) for _ in range(ctx.n(20000, 100000))]
+    cases += [gen_parse_case(r) for _ in range(ctx.n(12000, 100000))]
     for c in cases:
         ks = [k for k, _ in c["attrs"]]
         ctx.count("parse:dup" if len(set(ks)) < len(ks) else "parse:nodup")
@@ -1667,7 +1717,7 @@ def run(ctx: Ctx):
         ctx.count("parse:dcls=" + c["cfg"].get("dcls", "absent"))
     check_cases(ctx, "parse", cases)
     r = ctx.rng("parse-malformed")
-    cases = [gen_malformed_case(r) for _ in range(ctx.n(8000, 40000))]
+    cases = [gen_malformed_case(r) for _ in range(ctx.n(5000, 40000))]
     check_cases(ctx, "parse-malformed", cases)
     for c in cases:
         ks = [k for k, _ in c["attrs"]]
@@ -1676,13 +1726,13 @@ def run(ctx: Ctx):
 
     # ---- 5b. histories: identical raw values under one builder, lists changed in place ------------------------------
     r = ctx.rng("history")
-    cases = directed_history_cases() + [gen_history_case(r) for _ in range(ctx.n(2500, 12000))]
+    cases = directed_history_cases() + [gen_history_case(r) for _ in range(ctx.n(2000, 12000))]
     for c in cases:
         v = simulate_history(c)[0]
         ctx.count("history:reused-builder" if c["reuse"] else "history:fresh-builders")
         ctx.count("history:inplace-changes-applied", sum(1 for st, ok in zip(c["steps"], v) if ok and st[0] == "mut"))
         ctx.count("history:documents", sum(1 for st in c["steps"] if st[0] == "doc"))
-        ctx.count("history:new_tag+copy", sum(1 for st, ok in zip(c["steps"], v) if ok and st[0] in ("new", "copy")))
+        ctx.count("history:new_tag+copy+ctor", sum(1 for st, ok in zip(c["steps"], v) if ok and st[0] in ("new", "copy", "ctor")))
         ms = [n for n, (st, ok) in enumerate(zip(c["steps"], v)) if ok and st[0] == "mut"]
         if ms and any(st[0] == "doc" for st in c["steps"][ms[0] + 1:]):
             ctx.count("history:document-parsed-after-an-inplace-change")
@@ -1695,12 +1745,12 @@ def run(ctx: Ctx):
         for vd in LIGHT_GRID + [["s", x] for x in FMT_SAFE_STRS] + [["l", 1, ["it's", 'q"']], ["l", 0, ["x y", ""]]]:
             cases.append({"kind": "format", "fmt": fmt, "isxml": False, "name": "a", "items": [["k", list(vd)], ["Z", ["s", ""]], ["b", ["n"]]]})
     ctx.exhaustive_parts.append(f"format: every grid value x every formatter ({len(cases)} cases)")
-    cases += [gen_format_case(r) for _ in range(ctx.n(4000, 20000))]
+    cases += [gen_format_case(r) for _ in range(ctx.n(3000, 20000))]
     for c in cases:
         ctx.count("format:fmt=" + c["fmt"])
     check_cases(ctx, "format", cases)
     r = ctx.rng("access")
-    cases = [gen_access_case(r) for _ in range(ctx.n(4000, 20000))]
+    cases = [gen_access_case(r) for _ in range(ctx.n(3000, 20000))]
     check_cases(ctx, "access", cases)
 
     # ---- 6. str.lower table: the model's per-code-point lower against the runtime ------------------------------------
@@ -1757,6 +1807,9 @@ def replay(path):
                         out.append(f"  tag {st[1]}[{st[2]!r}].{st[3]}({'' if st[4] is None else repr(st[4])})   (skipped when not applicable)")
                     elif st[0] == "del":
                         out.append(f"  del tag {st[1]}[{st[2]!r}]")
+                    elif st[0] == "ctor":
+                        out.append(f"  tag {n} = Tag(name=tag{st[1]}.name, attrs=tag{st[1]}.attrs, is_xml={bool(st[2])})")
+                        n += 1
                     else:
                         out.append(f"  tag {st[1]}[{mk_key(st[2])!r}] = {st[3]!r}")
                 return "\n".join(out)
